@@ -18,7 +18,7 @@ LEVEL = 'exploration'
 TECHNIQUE = 'runtime monitoring: differential execution against an executable premerge-operator model over unique-marker configs (moves are traceable), calibrated on the repository fixtures'
 LEVEL_TEXT = ('Held on the generated histories only: base configs of unique markers (depth<=4) followed by 1-4 stages with 1-5 !append/!extend/!prev operators each, aimed at '
               'top-level and nested, existing and missing, list and non-list targets, also through list indices, including chains inside one stage (an operator consuming what '
-              'an earlier one produced, !prev into an ancestor/descendant of its source). The complete result is compared with the model, so every untouched path is checked too.')
+              'an earlier one produced, !prev into an ancestor/descendant of its source, plain !prev paths naming string keys spelled like other YAML scalars). The complete result is compared with the model, so every untouched path is checked too.')
 LEVEL_NOTE = 'Trusted: model.premerge/merge (calibrated on 9 append/extend/prev fixtures plus the merge fixtures). Documents carry no priority/delete tags here (C03/C04 cover those).'
 RULE = ('seeded base + operator stages generated against the model state; non-trivial = at least one operator acts on an existing target; distinct = hash of texts')
 ASSUMPTIONS = ['operators are applied in document order against the accumulated tree, then the stage is merged']
